@@ -173,11 +173,11 @@ theorem C04_text_partial (old : Mem) (f : Frame) (c : Cache) (args : List Arg) (
 
 /-! ### non-vacuity: concrete, non-trivial inputs meet the hypotheses and exercise the branches -/
 
-def kiVector : KindInfo := { hasPrefix := true, fastSize := true, fastEncode := true, pushCount := false, mapLike := false }
-def kiList : KindInfo := { hasPrefix := true, fastSize := true, fastEncode := false, pushCount := false, mapLike := false }
-def kiFwd : KindInfo := { hasPrefix := true, fastSize := false, fastEncode := false, pushCount := true, mapLike := false }
-def kiMap : KindInfo := { hasPrefix := true, fastSize := true, fastEncode := false, pushCount := false, mapLike := true }
-def kiArray : KindInfo := { hasPrefix := false, fastSize := true, fastEncode := true, pushCount := false, mapLike := false }
+def kiVector : KindInfo := { hasPrefix := true, fastSize := true, fastEncode := true, pushCount := false, mapLike := false, pairTemp := false }
+def kiList : KindInfo := { hasPrefix := true, fastSize := true, fastEncode := false, pushCount := false, mapLike := false, pairTemp := false }
+def kiFwd : KindInfo := { hasPrefix := true, fastSize := false, fastEncode := false, pushCount := true, mapLike := false, pairTemp := false }
+def kiMap : KindInfo := { hasPrefix := true, fastSize := true, fastEncode := false, pushCount := false, mapLike := true, pairTemp := true }
+def kiArray : KindInfo := { hasPrefix := false, fastSize := true, fastEncode := true, pushCount := false, mapLike := false, pairTemp := false }
 
 /-- `"ab\0cd"` behind a `char const*`, an unterminated `char[3]`, a `std::string` with an embedded NUL, a
     `forward_list<optional<char const*>>` with an empty member, a `vector<int16>` (shortcut), a `map<u8,u16>`,
